@@ -876,6 +876,8 @@ func runC05(rep *vh.Report, r *vh.Rng, n int, thorough bool) {
 			e.tableTrees(sc, thorough)
 		}
 	}
+	// the clause tables of every statement kind through allow-patterns + denyall and deny-patterns (c05clauses.go)
+	e.clauseFamily(thorough)
 }
 
 // variants asks the verdict for formatting variants of one statement and checks they agree.
